@@ -47,6 +47,10 @@ def run(ctx, FS):
         finalize(ctx, F)
         dibit(ctx, F)
         simd_dibit(ctx, F)
+        # multi-GiB inputs: what is counted for a piece is the checked conversion of its length (or the room left), and the iterated
+        # slice is the counted one (shared with C11 R-11.3)
+        from . import c11
+        c11.guards(ctx, F, "R-01.8")
     ctx.floor("R-01.1", 5 * len(FS), "table/constant instances")
 
 
